@@ -532,7 +532,11 @@ func c09GenCond(rng *verifkit.Rand, pool []c09Val, scope string) c09Cond {
 	k := rng.Intn(100)
 	switch {
 	case k < 22: // untyped comparison
-		c.Op, c.Values = cmp[rng.Intn(6)], []c09Val{val()}
+		v := val()
+		if v.K == c09Int && v.I > -(1<<40) && v.I < 1<<40 && rng.Chance(0.25) {
+			v = c09F(float64(v.I) + verifkit.Pick(rng, 0.5, -0.5, 0.25)) // fractional threshold next to an integer value
+		}
+		c.Op, c.Values = cmp[rng.Intn(6)], []c09Val{v}
 	case k < 34:
 		c.Op, c.Datatype, c.Values = cmp[rng.Intn(6)], "int", []c09Val{intVal()}
 	case k < 46:
@@ -1560,6 +1564,18 @@ func c09Grid() []c09GridCase {
 		add("key-root-field", c09Sampler{Dyn: &c09Dyn{Kind: "EMADynamicSampler", Rate: 1, FieldList: []string{"root.f0"}}})
 		add("key-downstream", c09Sampler{Rules: []c09Rule{{Name: "all", Down: &c09Dyn{Kind: "TotalThroughputSampler", Rate: 1, FieldList: []string{"f0", "root.f0"}}}}})
 	}
+	// untyped comparisons of an INTEGER field value with a FRACTIONAL rule value next to it
+	// (duration_ms >= 99.5 with duration_ms = 99): integer- and float-encoded fields must agree
+	for _, fc := range []struct {
+		v     int64
+		delta float64
+	}{{5, 0.5}, {1000000, 0.5}, {-7, -0.5}, {99, 0.5}} {
+		for _, op := range []string{">=", "<", "=", "!=", ">", "<="} {
+			v := c09I(fc.v)
+			out = append(out, c09GridCase{Name: "fractional-threshold" + op + "/" + v.String(), Val: v,
+				Sampler: rule(c09Cond{Fields: []string{"f0"}, Op: op, Values: []c09Val{c09F(float64(fc.v) + fc.delta)}})})
+		}
+	}
 	return out
 }
 
@@ -1602,7 +1618,55 @@ func TestVerif_C09(t *testing.T) {
 		g.runCase(tr, gc.Sampler, variants, [][]int{{0, 1}, {1, 0}}, ci == 0)
 	})
 
-	run.Cases("trace-x-sampler", run.N(140, 2600), func(ci int, rng *verifkit.Rand) {
+	// wide traces: 120..300 spans, at most 5 distinct values per key field (far below the
+	// 100-distinct-value cap), one rare value on a single span that arrives first / in the
+	// middle / last / somewhere: the key must not depend on where it arrives
+	run.Cases("wide-trace-span-order", run.N(4, 60), func(ci int, rng *verifkit.Rand) {
+		n := rng.Range(120, 300)
+		tr := &c09Trace{TraceID: "wide" + rng.Hex(12)}
+		common := []c09Val{c09I(200), c09I(404), c09S("GET"), c09F(0.5)}[:rng.Range(1, 4)]
+		rare := verifkit.Pick(rng, c09I(500), c09S("rare"), c09F(1.5))
+		rareAt, rootAt := rng.Intn(n), rng.Intn(n)
+		for i := 0; i < n; i++ {
+			sp := c09Span{ID: fmt.Sprintf("w%03d-%s", i, rng.Hex(3)), Root: i == rootAt}
+			v := common[rng.Intn(len(common))]
+			if i == rareAt {
+				v = rare
+			}
+			sp.Fields = append(sp.Fields, c09Field{"f0", v})
+			if rng.Chance(0.5) {
+				sp.Fields = append(sp.Fields, c09Field{"f1", verifkit.Pick(rng, c09S("a"), c09S("b"))})
+			}
+			tr.Spans = append(tr.Spans, sp)
+		}
+		d := c09GenDyn(rng, false)
+		d.FieldList = verifkit.Pick(rng, []string{"f0"}, []string{"f0", "f1"}, []string{"f1", "f0", "root.f0"})
+		smp := c09Sampler{Dyn: d}
+		if rng.Chance(0.3) {
+			smp = c09Sampler{Rules: []c09Rule{{Name: "all", Down: d}}}
+		}
+		place := func(pos int) []int { // every other span in index order, the rare one at pos
+			ord := make([]int, 0, n)
+			for i := 0; i < n; i++ {
+				if i != rareAt {
+					ord = append(ord, i)
+				}
+			}
+			ord = append(ord, 0)
+			copy(ord[pos+1:], ord[pos:])
+			ord[pos] = rareAt
+			return ord
+		}
+		orders := [][]int{place(0), place(n / 2), place(n - 1), rng.Perm(n)}
+		var variants []c09Variant
+		if rng.Bool() {
+			variants = append(variants, c09Uniform("batch-json", n, c09Enc{Path: c09BatchJSON}, true, rng.Uint64()))
+		}
+		run.Count("wide_traces", 1)
+		g.runCase(tr, smp, variants, orders, false)
+	})
+
+	run.Cases("trace-x-sampler", run.N(100, 2600), func(ci int, rng *verifkit.Rand) {
 		otlp := rng.Chance(0.25)
 		tr, pool := c09GenTrace(rng.Fork("trace"), run.Thorough(), otlp)
 		n := len(tr.Spans)
